@@ -11,16 +11,21 @@ from ..callsites import ENTRY_POINTS, Scenario, run_entry
 
 INFO = {
     "id": "C14",
-    "technique": "dependency (non-interference) analysis of the Algebra dataclass fields vs __eq__; template extraction of "
-                 "the multi-operand entry points with a foreign algebra; literal-table validation of the named bases; "
-                 "dependency rule for matrix_basis; name-arithmetic scan of the codegens",
+    "technique": "abstract interpretation of Algebra.__eq__ on stand-in algebras that differ in one metric input "
+                 "(dependency analysis of the dataclass fields when the equality is the generated one); template "
+                 "extraction of the multi-operand entry points with a foreign algebra; literal-table validation of the "
+                 "named bases; abstract interpretation of matrix_basis / matrix_rep with symbolic Kronecker arithmetic on "
+                 "custom bases; name-arithmetic scan of the codegens",
     "explanation": "Clause-level. Decided: which constructor inputs reach the metric and whether the equality used for "
-                   "operand compatibility covers them (FINDING: `signature` is compare=False, so algebras with different "
-                   "metrics compare equal and their operands are silently combined); every multi-operand entry point "
+                   "operand compatibility covers them - Algebra.__eq__ is run from source on pairs of algebras (built by "
+                   "running __post_init__ from source) that differ only in p, q, r, the ORDER of the signature, or the basis, "
+                   "and on an identically constructed pair (fixed finding F6: the signature was not compared); every multi-operand entry point "
                    "rejects an operand of a non-equal algebra with AlgebraError before the cache lookup; the three named "
                    "bases are admissible (2^d distinct blades, sorted by grade, every subset of generators exactly once) for "
-                   "the (p,q,r) they are constructed with; the producer of matrix_basis does not depend on the basis while "
-                   "its consumers index it by canonical position (FINDING, shared with C18); no codegen does arithmetic on "
+                   "the (p,q,r) they are constructed with; matrix_basis, which its consumers index by canonical position, holds at "
+                   "the position of every blade the product of the generator matrices in that blade's spelled order, for "
+                   "default, named and hand-written bases built one after another in one process (fixed finding F7, shared "
+                   "with C18); no codegen does arithmetic on "
                    "blade names - operators see a basis only through canon2bin/signs, so C01-C07 hold for every basis. NOT "
                    "decided: the isomorphism as a value-level statement.",
     "decided": ["C14.eq-fields", "C14.algebra-check", "C14.named-bases", "C14.matrix-basis", "C08.no-positional-codegen",
@@ -32,14 +37,113 @@ INFO = {
 METRIC_INPUTS = ("p", "q", "r", "signature", "basis")
 
 
+def dataclass_fields(repo, cls_qual):
+    """The dataclass fields of a repository class as stand-in objects (name, compare, init, metadata keys), read
+    from the annotated assignments of the class body; `partial(field, ...)` helpers of the module are resolved."""
+    cls = repo.cls(cls_qual)
+    mod = repo.modules[cls_qual.split(".")[0]].tree
+    partials = {}
+    for st in mod.body:
+        if isinstance(st, ast.Assign) and isinstance(st.value, ast.Call) and call_name(st.value) in ("partial", "functools.partial") \
+                and st.value.args and un(st.value.args[0]) in ("field", "dataclasses.field"):
+            for t in st.targets:
+                if isinstance(t, ast.Name):
+                    partials[t.id] = {kw.arg: kw.value for kw in st.value.keywords if kw.arg}
+    out = []
+    for st in cls.body:
+        if not (isinstance(st, ast.AnnAssign) and isinstance(st.target, ast.Name)):
+            continue
+        if "ClassVar" in un(st.annotation):
+            continue
+        kws = {}
+        if isinstance(st.value, ast.Call):
+            fname = call_name(st.value)
+            if fname in ("field", "dataclasses.field"):
+                kws = {kw.arg: kw.value for kw in st.value.keywords if kw.arg}
+            elif fname in partials:
+                kws = dict(partials[fname])
+                kws.update({kw.arg: kw.value for kw in st.value.keywords if kw.arg})
+
+        def flag(name, default=True):
+            v = kws.get(name)
+            return v.value if isinstance(v, ast.Constant) and isinstance(v.value, bool) else default
+        meta = {}
+        if isinstance(kws.get("metadata"), ast.Dict):
+            meta = {const_value(k): True for k in kws["metadata"].keys if isinstance(k, ast.Constant)}
+        out.append(Obj("Field", {"name": st.target.id, "compare": flag("compare"), "init": flag("init"),
+                                 "repr": flag("repr"), "metadata": meta, "fmt": f"<field {st.target.id}>"}))
+    return out
+
+
+EQ_BASES = {
+    # metric input -> (constructor arguments of the reference algebra, of the variant that differs in that input only)
+    "p": (dict(p=2, q=1), dict(p=3, q=1)),
+    "q": (dict(p=2, q=1), dict(p=2, q=2)),
+    "r": (dict(p=2, q=1), dict(p=2, q=1, r=1)),
+    "signature": (dict(signature=[1, -1]), dict(signature=[-1, 1])),
+    "basis": (dict(p=3), dict(p=3, basis=["e", "e2", "e3", "e1", "e23", "e31", "e12", "e123"])),
+}
+
+
+def _eq_by_interpretation(ctx, cls, eqdef):
+    """Algebra defines __eq__ itself: run it from source on pairs of stand-in algebras (built by running
+    __post_init__ from source) that differ in exactly one metric input, and on an identically constructed pair."""
+    from .c01 import build_algebra
+    from ..absint import PyFunc, Raised
+    repo = ctx.repo
+    flds = dataclass_fields(repo, "algebra.Algebra")
+
+    def run_eq(kw_a, kw_b):
+        it, a = build_algebra(repo, **kw_a)
+        _, b = build_algebra(repo, **kw_b)
+        it.standins["dataclasses.fields"] = PyFunc(lambda o: list(flds), "fields", True)
+        it.standins["numpy"] = Obj("module:numpy", {
+            "array": PyFunc(lambda x, *a_, **k: list(x), "np.array", True),
+            "array_equal": PyFunc(lambda x, y, *a_, **k: list(x) == list(y), "np.array_equal", True),
+            "all": PyFunc(lambda x, *a_, **k: all(x) if isinstance(x, (list, tuple)) else bool(x), "np.all", True),
+        })
+        out = it.run("algebra.Algebra.__eq__", [a, b])
+        if out[0] == "raise":
+            raise Raised(out[1])
+        if not isinstance(out[1], bool):
+            raise NoValue(f"__eq__ gives {out[1]!r}")
+        return out[1]
+
+    for name in METRIC_INPUTS:
+        c = f"algebra.Algebra.{name}#compare"
+        base, variant = EQ_BASES[name]
+        try:
+            same = run_eq(base, dict(base))
+            differ = run_eq(base, variant)
+            differ_rev = run_eq(variant, base)
+        except NoValue as exc:
+            raise Unknown(c, str(exc), eqdef)
+        except Raised as r:
+            ctx.violation(c, f"Algebra.__eq__ raises {r.name} when comparing Algebra({base}) with Algebra({variant})", eqdef)
+            continue
+        if not same:
+            ctx.violation(c, f"two algebras constructed identically (Algebra({base})) compare unequal: the operand check of "
+                             f"registered functions (which has no identity shortcut) rejects every call", eqdef)
+        elif differ or differ_rev:
+            ctx.violation(c, f"Algebra({base}) == Algebra({variant}): two algebras that differ only in {name} compare equal, "
+                             f"so the operand compatibility check lets their elements be combined with the wrong metric", eqdef)
+        else:
+            ctx.ok(c, eqdef, compared=True, by="__eq__ interpreted on stand-in algebras", reference=str(base), variant=str(variant))
+
+
 @rule("C14.eq-fields", props=["C14"], min_instances=5, mutants=[
     ("basis no longer compared", ("algebra", "    basis: List[str] = field(repr=False, default_factory=list)", "    basis: List[str] = field(repr=False, default_factory=list, compare=False)")),
+    ("signature no longer compared", ("algebra", "\n                and np.array_equal(self.signature, other.signature))", ")")),
+    ("equality compares the dimension only", ("algebra", "        return (all(getattr(self, f.name) == getattr(other, f.name) for f in fields(self) if f.compare)\n                and np.array_equal(self.signature, other.signature))", "        return self.d == other.d")),
 ])
 def eq_fields(ctx):
-    """Every constructor input that reaches the metric takes part in Algebra.__eq__ (DEP)."""
+    """Every constructor input that reaches the metric takes part in Algebra.__eq__ (DEP for the generated dataclass
+    equality; by interpretation of __eq__ on stand-in algebras when the class defines it)."""
     cls = ctx.cls("algebra.Algebra")
-    if any(isinstance(s, ast.FunctionDef) and s.name == "__eq__" for s in cls.body):
-        raise Unknown("algebra.Algebra.__eq__", "explicit __eq__: field-based analysis does not apply", cls)
+    explicit = [s for s in cls.body if isinstance(s, ast.FunctionDef) and s.name == "__eq__"]
+    if explicit:
+        _eq_by_interpretation(ctx, cls, explicit[0])
+        return
     deco = [un(d) for d in cls.decorator_list]
     if not any(d.startswith("dataclass") for d in deco) or any("eq=False" in d for d in deco):
         raise Unknown("algebra.Algebra", f"not a plain dataclass ({deco})", cls)
@@ -160,27 +264,7 @@ def named_bases(ctx):
         raise Unknown("algebra.Algebra.fromname", f"only {found} literal bases recognised", fn)
 
 
-@rule("C14.matrix-basis", props=["C14", "C18"], min_instances=1)
-def matrix_basis(ctx):
-    """matrix_basis is indexed by canonical position (which depends on the basis), so its producer must depend on
-    the basis (DEP)."""
-    mb = ctx.func("algebra.Algebra.matrix_basis")
-    asm = ctx.func("multivector.MultiVector.asmatrix")
-    consumer_positional = any(isinstance(n, ast.Call) and call_name(n) == "enumerate" and "canon2bin" in un(n) for n in ast.walk(asm))
-    if not consumer_positional:
-        raise Unknown("multivector.MultiVector.asmatrix", "does not index matrix_basis by canonical position", asm)
-    reads = {n.attr for n in ast.walk(mb) if isinstance(n, ast.Attribute) and un(n.value) == mb.args.args[0].arg}
-    producer = ctx.func("matrixreps.matrix_rep")
-    pparams = {a.arg for a in producer.args.args}
-    c = "algebra.Algebra.matrix_basis#basis-dependence"
-    if reads & {"basis", "canon2bin", "bin2canon"} or pparams & {"basis", "canon2bin", "bin2canon"}:
-        ctx.ok(c, mb, reads=sorted(reads))
-    else:
-        ctx.violation(c, f"MultiVector.asmatrix/frommatrix index matrix_basis by the position of a blade in the canonical "
-                         f"basis, which depends on the custom basis, but matrix_basis is computed from {sorted(reads)} only "
-                         f"(matrix_rep({', '.join(sorted(pparams))})): with a custom basis (2DPGA, 3DPGA, STAP) position i "
-                         f"holds the matrix of a different blade / orientation, so asmatrix is not a homomorphism", mb,
-                      reads=sorted(reads))
+# C14.matrix-basis lives in c18.py (it needs the symbolic Kronecker arithmetic defined there)
 
 
 @rule("C14.no-name-arithmetic", props=["C14"], min_instances=29, mutants=[
